@@ -4,10 +4,116 @@
 -/
 import IpldModel.Model.Cbor
 import IpldModel.Spec.CborDenotes
+import IpldModel.Spec.CborLimits
+import IpldModel.Lemmas.CborDecComplete
+import IpldModel.Lemmas.CborDecSound
+import IpldModel.Lemmas.CborCanon
+import IpldModel.Lemmas.CborCheck
+import IpldModel.Lemmas.CborNegWrap
+import IpldModel.Lemmas.CborReject
+import IpldModel.Lemmas.CborExamples
+import IpldModel.Generated.CborConsts
 namespace Ipld.Props.C03
-open Ipld Ipld.Cbor
+open Ipld Ipld.Cbor Ipld.Spec
 
-/-! Rejection lemmas at the top level, for *every* continuation `rest` of the input. -/
+/-! ## The decoder accepts exactly what the Spec says, and reads it as the Spec says -/
+
+/-- Completeness: a byte string that denotes `v` decodes to `v`, under every configuration (strict or
+    relaxed, with or without the `negWrap` deviation), provided `v` fits the configured limits.
+    `hB` says the budget is a Go `int64`; it excludes only lists/maps with 2^63 or more entries. -/
+theorem decode_complete (cfg : DecCfg) (v : DM) (bs : Bytes) (hB : cfg.budget < 2 ^ 63) :
+    Denotes v bs → WithinLimits cfg v → decode cfg bs = .ok v :=
+  fun hd hl => decode_complete_aux cfg v bs hd hl hB
+
+/-- Writing a value in the entry order it has yields bytes that denote it. -/
+theorem denotes_encOrdered (v : DM) :
+    v.NoDup → encodable dagcborEnc v = true → finiteFloats v → Denotes v (encOrdered v) :=
+  Cbor.denotes_encOrdered v
+
+/-- Round trip: decoding what the encoder wrote gives the value back, in canonical entry order. -/
+theorem decode_encode (cfg : DecCfg) (v : DM) (hB : cfg.budget < 2 ^ 63) :
+    v.NoDup → encodable dagcborEnc v = true → finiteFloats v → WithinLimits cfg (canon v) →
+    decode cfg (enc dagcborEnc v) = .ok (canon v) :=
+  fun hn he hf hl => decode_encode_aux cfg v hn he hf hl hB
+
+/-- The limits can equally be stated on the value itself: canonical reordering changes none of them. -/
+theorem withinLimits_canon (cfg : DecCfg) (v : DM) : WithinLimits cfg (canon v) ↔ WithinLimits cfg v :=
+  Cbor.withinLimits_canon cfg v
+
+/-- Soundness: whatever the strict decoder (with the K1 deviation removed) accepts as a whole input
+    denotes the value it returns.  No limit enters: limits only make the decoder refuse more. -/
+theorem decode_sound (cfg : DecCfg) (bs : Bytes) (v : DM) :
+    decode cfg bs = .ok v → cfg.relaxed = false → cfg.negWrap = false → cfg.dontParseBeyondEnd = false →
+    Denotes v bs :=
+  fun h hr hw hp => decode_sound_aux cfg bs v h hr hw hp
+
+/-- Soundness and completeness together: for a value within the limits, the strict decoder (K1
+    removed) returns `v` on `bs` iff `bs` denotes `v`. -/
+theorem decode_iff_denotes (cfg : DecCfg) (bs : Bytes) (v : DM) (hB : cfg.budget < 2 ^ 63)
+    (hr : cfg.relaxed = false) (hw : cfg.negWrap = false) (hp : cfg.dontParseBeyondEnd = false)
+    (hl : WithinLimits cfg v) : decode cfg bs = .ok v ↔ Denotes v bs :=
+  ⟨fun h => decode_sound cfg bs v h hr hw hp, fun h => decode_complete cfg v bs hB h hl⟩
+
+/-! Hypotheses are satisfiable: a map (keys out of canonical order) holding a link and a list of
+    ints, a string, a float, null and bytes. -/
+
+example : exValue.NoDup := by simp [exValue, DM.NoDup, DMKVs.NoDupVals, DMs.NoDup, DMKVs.keys, DMKVs.toList]
+example : encodable dagcborEnc exValue = true := by decide
+example : finiteFloats exValue := by
+  simp [exValue, finiteFloats, finiteFloatsKVs, finiteFloatsList]; decide
+example : WithinLimits dagcborDec exValue := by unfold WithinLimits; decide
+example : WithinLimits dagcborDec (canon exValue) := by unfold WithinLimits; decide
+example : Denotes exValue exBytes := (Cbor.denotesCheck_iff _ _).mp (by decide)
+example : canon exValue ≠ exValue := by decide
+
+/-- `decode_complete` applies: the non-canonical bytes decode to the value in the order written. -/
+example : decode dagcborDec exBytes = .ok exValue :=
+  decode_complete dagcborDec exValue exBytes (by decide) ((Cbor.denotesCheck_iff _ _).mp (by decide))
+    (by unfold WithinLimits; decide)
+
+/-- `decode_encode` applies: the round trip returns the canonically ordered value. -/
+example : decode dagcborDec (enc dagcborEnc exValue) = .ok (canon exValue) :=
+  decode_encode dagcborDec exValue (by decide)
+    (by simp [exValue, DM.NoDup, DMKVs.NoDupVals, DMs.NoDup, DMKVs.keys, DMKVs.toList]) (by decide)
+    (by simp [exValue, finiteFloats, finiteFloatsKVs, finiteFloatsList]; decide)
+    (by unfold WithinLimits; decide)
+
+/-! ## K1: the `negWrap` deviation is the only one -/
+
+/-- Removing the uint64 wrap-around of refmt's `decodeNegInt` changes the outcome of a decode in one
+    way only: the repaired decoder may stop with `negOverflow` where the code-faithful one goes on.
+    (Holds for every outcome of the faithful run, not just success.) -/
+theorem negWrap_only_deviation' (cfg : DecCfg) (bs : Bytes) :
+    decode { cfg with negWrap := false } bs = decode cfg bs
+    ∨ decode { cfg with negWrap := false } bs = .error .negOverflow :=
+  decode_dev cfg bs
+
+theorem negWrap_only_deviation (cfg : DecCfg) (bs : Bytes) (v : DM) :
+    decode cfg bs = .ok v →
+    decode { cfg with negWrap := false } bs = .ok v
+    ∨ decode { cfg with negWrap := false } bs = .error .negOverflow := by
+  intro h
+  rcases decode_dev cfg bs with e | e
+  · left; rw [e, h]
+  · right; exact e
+
+/-- Conversely, everything the repaired decoder accepts the code-faithful one accepts identically. -/
+theorem negWrap_conservative (cfg : DecCfg) (bs : Bytes) (v : DM) :
+    decode { cfg with negWrap := false } bs = .ok v → decode cfg bs = .ok v := by
+  intro h
+  rcases decode_dev cfg bs with e | e
+  · rw [← e, h]
+  · rw [e] at h; cases h
+
+/-! ## The executable verifier used as test oracle decides `Denotes` -/
+
+theorem denotesCheck_sound (v : DM) (bs : Bytes) : denotesCheck v bs = true → Denotes v bs :=
+  Cbor.denotesCheck_sound v bs
+
+theorem denotesCheck_iff (v : DM) (bs : Bytes) : denotesCheck v bs = true ↔ Denotes v bs :=
+  Cbor.denotesCheck_iff v bs
+
+/-! ## Rejections at the top level, for *every* continuation `rest` of the input -/
 
 /-- Indefinite-length heads are refused in strict and in relaxed mode, whatever follows. -/
 theorem reject_indefinite (cfg : DecCfg) (b : UInt8) (rest : Bytes)
@@ -15,9 +121,356 @@ theorem reject_indefinite (cfg : DecCfg) (b : UInt8) (rest : Bytes)
     decode cfg (b :: rest) = .error .indefinite := by
   rcases hb with rfl | rfl | rfl | rfl <;> simp [decode, decItem, bind, Except.bind]
 
-/-- A one-byte argument below 24 is non-minimal: refused in strict mode for every major type 0..6. -/
+/-- A one-byte argument below 24 is non-minimal: refused in strict mode (unsigned integer head). -/
 theorem reject_nonminimal_w1_uint (cfg : DecCfg) (hs : cfg.relaxed = false) (n : UInt8) (rest : Bytes)
     (hn : n.toNat < 24) : decode cfg (0x18 :: n :: rest) = .error .nonMinimal := by
   simp [decode, decItem, readArg, take?, beVal, hs, hn, bind, Except.bind]
+
+/-- … and so for every major type 0..6 (`b0` is any first byte with additional info 24). -/
+theorem reject_nonminimal_w1 (cfg : DecCfg) (hs : cfg.relaxed = false) (b0 n : UInt8) (rest : Bytes)
+    (hm : b0.toNat / 32 ≤ 6) (hi : b0.toNat % 32 = 24) (hn : n.toNat < 24) :
+    decode cfg (b0 :: n :: rest) = .error .nonMinimal := by
+  apply decode_error_of_decItem 0 (by simp)
+  intro f _
+  apply decItem_readArg_err _ _ _ _ _ _ _ _ _ hm (by omega) (fun _ => rfl)
+  simp [hs, hi, readArg, take?, beVal, hn, bind, Except.bind]
+
+/-- A two-byte argument below 256 (first argument byte zero) is non-minimal, every major type 0..6. -/
+theorem reject_nonminimal_w2 (cfg : DecCfg) (hs : cfg.relaxed = false) (b0 a : UInt8) (rest : Bytes)
+    (hm : b0.toNat / 32 ≤ 6) (hi : b0.toNat % 32 = 25) :
+    decode cfg (b0 :: 0 :: a :: rest) = .error .nonMinimal := by
+  apply decode_error_of_decItem 0 (by simp)
+  intro f _
+  apply decItem_readArg_err _ _ _ _ _ _ _ _ _ hm (by omega) (fun _ => rfl)
+  rw [hs, hi]
+  exact readArg_nonminimal 25 2 256 (by simp) [0, a] rfl (by have := a.toNat_lt; simp [beVal]; omega) rest
+
+/-- A four-byte argument below 65536 (first two argument bytes zero) is non-minimal. -/
+theorem reject_nonminimal_w4 (cfg : DecCfg) (hs : cfg.relaxed = false) (b0 a1 a2 : UInt8) (rest : Bytes)
+    (hm : b0.toNat / 32 ≤ 6) (hi : b0.toNat % 32 = 26) :
+    decode cfg (b0 :: 0 :: 0 :: a1 :: a2 :: rest) = .error .nonMinimal := by
+  apply decode_error_of_decItem 0 (by simp)
+  intro f _
+  apply decItem_readArg_err _ _ _ _ _ _ _ _ _ hm (by omega) (fun _ => rfl)
+  rw [hs, hi]
+  exact readArg_nonminimal 26 4 65536 (by simp) [0, 0, a1, a2] rfl
+    (by have := a1.toNat_lt; have := a2.toNat_lt; simp [beVal]; omega) rest
+
+/-- An eight-byte argument below 2^32 (first four argument bytes zero) is non-minimal. -/
+theorem reject_nonminimal_w8 (cfg : DecCfg) (hs : cfg.relaxed = false) (b0 a1 a2 a3 a4 : UInt8) (rest : Bytes)
+    (hm : b0.toNat / 32 ≤ 6) (hi : b0.toNat % 32 = 27) :
+    decode cfg (b0 :: 0 :: 0 :: 0 :: 0 :: a1 :: a2 :: a3 :: a4 :: rest) = .error .nonMinimal := by
+  apply decode_error_of_decItem 0 (by simp)
+  intro f _
+  apply decItem_readArg_err _ _ _ _ _ _ _ _ _ hm (by omega) (fun _ => rfl)
+  rw [hs, hi]
+  exact readArg_nonminimal 27 8 4294967296 (by simp) [0, 0, 0, 0, a1, a2, a3, a4] rfl
+    (by have := a1.toNat_lt; have := a2.toNat_lt; have := a3.toNat_lt; have := a4.toNat_lt
+        simp [beVal]; omega) rest
+
+/-! ### NaN and infinities (strict mode), every bit pattern -/
+
+/-- Every 64-bit NaN pattern is refused. -/
+theorem reject_nan_f64 (cfg : DecCfg) (hs : cfg.relaxed = false) (a rest : Bytes) (ha : a.length = 8)
+    (hn : f64IsNaN (beVal a) = true) : decode cfg (0xfb :: (a ++ rest)) = .error .nan := by
+  apply decode_error_of_decItem 0 (by simp)
+  intro f _
+  rw [decItem_f64 _ _ _ _ _ _ _ _ (by decide), take?_append' 8 _ _ ha]
+  simp [bind, Except.bind, checkFloat, hs, hn]
+
+/-- Both 64-bit infinities are refused. -/
+theorem reject_inf_f64 (cfg : DecCfg) (hs : cfg.relaxed = false) (a rest : Bytes) (ha : a.length = 8)
+    (hn : f64IsInf (beVal a) = true) : decode cfg (0xfb :: (a ++ rest)) = .error .inf := by
+  apply decode_error_of_decItem 0 (by simp)
+  intro f _
+  rw [decItem_f64 _ _ _ _ _ _ _ _ (by decide), take?_append' 8 _ _ ha]
+  simp [bind, Except.bind, checkFloat, hs, hn, not_nan_of_inf _ hn]
+
+/-- Every 32-bit pattern that widens to a NaN is refused. -/
+theorem reject_nan_f32 (cfg : DecCfg) (hs : cfg.relaxed = false) (a rest : Bytes) (ha : a.length = 4)
+    (hn : f64IsNaN (f32to64 (beVal a)) = true) : decode cfg (0xfa :: (a ++ rest)) = .error .nan := by
+  apply decode_error_of_decItem 0 (by simp)
+  intro f _
+  rw [decItem_f32 _ _ _ _ _ _ _ _ (by decide), take?_append' 4 _ _ ha]
+  simp [bind, Except.bind, checkFloat, hs, hn]
+
+theorem reject_inf_f32 (cfg : DecCfg) (hs : cfg.relaxed = false) (a rest : Bytes) (ha : a.length = 4)
+    (hn : f64IsInf (f32to64 (beVal a)) = true) : decode cfg (0xfa :: (a ++ rest)) = .error .inf := by
+  apply decode_error_of_decItem 0 (by simp)
+  intro f _
+  rw [decItem_f32 _ _ _ _ _ _ _ _ (by decide), take?_append' 4 _ _ ha]
+  simp [bind, Except.bind, checkFloat, hs, hn, not_nan_of_inf _ hn]
+
+/-- Every 16-bit pattern that widens to a NaN is refused. -/
+theorem reject_nan_f16 (cfg : DecCfg) (hs : cfg.relaxed = false) (a rest : Bytes) (ha : a.length = 2)
+    (hn : f64IsNaN (f16to64 (beVal a)) = true) : decode cfg (0xf9 :: (a ++ rest)) = .error .nan := by
+  apply decode_error_of_decItem 0 (by simp)
+  intro f _
+  rw [decItem_f16 _ _ _ _ _ _ _ _ (by decide), take?_append' 2 _ _ ha]
+  simp [bind, Except.bind, checkFloat, hs, hn]
+
+theorem reject_inf_f16 (cfg : DecCfg) (hs : cfg.relaxed = false) (a rest : Bytes) (ha : a.length = 2)
+    (hn : f64IsInf (f16to64 (beVal a)) = true) : decode cfg (0xf9 :: (a ++ rest)) = .error .inf := by
+  apply decode_error_of_decItem 0 (by simp)
+  intro f _
+  rw [decItem_f16 _ _ _ _ _ _ _ _ (by decide), take?_append' 2 _ _ ha]
+  simp [bind, Except.bind, checkFloat, hs, hn, not_nan_of_inf _ hn]
+
+/-- The canonical quiet NaN and ±Inf of each width, whatever follows. -/
+example (rest : Bytes) : decode dagcborDec (0xf9 :: 0x7e :: 0x00 :: rest) = .error .nan :=
+  reject_nan_f16 dagcborDec rfl [0x7e, 0x00] rest rfl (by decide)
+example (rest : Bytes) : decode dagcborDec (0xf9 :: 0x7c :: 0x00 :: rest) = .error .inf :=
+  reject_inf_f16 dagcborDec rfl [0x7c, 0x00] rest rfl (by decide)
+example (rest : Bytes) : decode dagcborDec (0xf9 :: 0xfc :: 0x00 :: rest) = .error .inf :=
+  reject_inf_f16 dagcborDec rfl [0xfc, 0x00] rest rfl (by decide)
+example (rest : Bytes) : decode dagcborDec (0xfa :: 0x7f :: 0xc0 :: 0x00 :: 0x00 :: rest) = .error .nan :=
+  reject_nan_f32 dagcborDec rfl [0x7f, 0xc0, 0x00, 0x00] rest rfl (by decide)
+example (rest : Bytes) : decode dagcborDec (0xfa :: 0x7f :: 0x80 :: 0x00 :: 0x00 :: rest) = .error .inf :=
+  reject_inf_f32 dagcborDec rfl [0x7f, 0x80, 0x00, 0x00] rest rfl (by decide)
+example (rest : Bytes) : decode dagcborDec (0xfa :: 0xff :: 0x80 :: 0x00 :: 0x00 :: rest) = .error .inf :=
+  reject_inf_f32 dagcborDec rfl [0xff, 0x80, 0x00, 0x00] rest rfl (by decide)
+example (rest : Bytes) :
+    decode dagcborDec (0xfb :: 0x7f :: 0xf8 :: 0 :: 0 :: 0 :: 0 :: 0 :: 0 :: rest) = .error .nan :=
+  reject_nan_f64 dagcborDec rfl [0x7f, 0xf8, 0, 0, 0, 0, 0, 0] rest rfl (by decide)
+example (rest : Bytes) :
+    decode dagcborDec (0xfb :: 0x7f :: 0xf0 :: 0 :: 0 :: 0 :: 0 :: 0 :: 0 :: rest) = .error .inf :=
+  reject_inf_f64 dagcborDec rfl [0x7f, 0xf0, 0, 0, 0, 0, 0, 0] rest rfl (by decide)
+example (rest : Bytes) :
+    decode dagcborDec (0xfb :: 0xff :: 0xf0 :: 0 :: 0 :: 0 :: 0 :: 0 :: 0 :: rest) = .error .inf :=
+  reject_inf_f64 dagcborDec rfl [0xff, 0xf0, 0, 0, 0, 0, 0, 0] rest rfl (by decide)
+
+/-! ### Tags -/
+
+/-- A tag other than 42 on a (complete, affordable) byte string is refused, strict or relaxed. -/
+theorem reject_tag_not42 (cfg : DecCfg) (t : Nat) (ht : t < 2 ^ 63) (h42 : t ≠ 42) (p rest : Bytes)
+    (hp : p.length ≤ 33554432) (hb : (p.length : Int) ≤ cfg.budget) :
+    decode cfg (shortestHead 6 t ++ ((shortestHead 2 p.length ++ p) ++ rest)) = .error .badTag := by
+  apply decode_error_of_decItem 1
+    (by have := shortestHead_length_pos 6 t; have := shortestHead_length_pos 2 p.length
+        simp only [List.length_append]; omega)
+  intro f hf
+  obtain ⟨f, rfl⟩ : ∃ g, f = g + 1 := ⟨f - 1, by omega⟩
+  rw [decItem_tag _ _ _ _ _ ht, decItem_tagged_bytes _ _ _ _ _ _ _ _ _ rfl hp (by omega), if_pos h42]
+
+/-- Tag 42 is refused when links are switched off. -/
+theorem reject_links_disabled (cfg : DecCfg) (hl : cfg.allowLinks = false) (p rest : Bytes)
+    (hp : p.length ≤ 33554432) (hb : (p.length : Int) ≤ cfg.budget) :
+    decode cfg (shortestHead 6 42 ++ ((shortestHead 2 p.length ++ p) ++ rest)) = .error .linksDisabled := by
+  apply decode_error_of_decItem 1
+    (by have := shortestHead_length_pos 6 42; have := shortestHead_length_pos 2 p.length
+        simp only [List.length_append]; omega)
+  intro f hf
+  obtain ⟨f, rfl⟩ : ∃ g, f = g + 1 := ⟨f - 1, by omega⟩
+  rw [decItem_tag _ _ _ _ _ (by omega), decItem_tagged_bytes _ _ _ _ _ _ _ _ _ rfl hp (by omega)]
+  simp [hl]
+
+/-- Tag 42 on a byte string that does not start with the identity-multibase byte 0x00 is refused. -/
+theorem reject_bad_multibase (cfg : DecCfg) (hl : cfg.allowLinks = true) (p rest : Bytes)
+    (h0 : ∀ cid, p ≠ 0 :: cid) (hp : p.length ≤ 33554432) (hb : (p.length : Int) ≤ cfg.budget) :
+    decode cfg (shortestHead 6 42 ++ ((shortestHead 2 p.length ++ p) ++ rest)) = .error .badMultibase := by
+  apply decode_error_of_decItem 1
+    (by have := shortestHead_length_pos 6 42; have := shortestHead_length_pos 2 p.length
+        simp only [List.length_append]; omega)
+  intro f hf
+  obtain ⟨f, rfl⟩ : ∃ g, f = g + 1 := ⟨f - 1, by omega⟩
+  rw [decItem_tag _ _ _ _ _ (by omega), decItem_tagged_bytes _ _ _ _ _ _ _ _ _ rfl hp (by omega)]
+  simp only [ne_eq, not_true_eq_false, if_false, hl, Bool.not_true, Bool.false_eq_true]
+
+/-- Tag 42 around 0x00 followed by bytes that `cid.Cast` refuses is refused. -/
+theorem reject_bad_cid (cfg : DecCfg) (hl : cfg.allowLinks = true) (c rest : Bytes)
+    (hc : cidValid c = false) (hp : c.length + 1 ≤ 33554432) (hb : (c.length : Int) + 1 ≤ cfg.budget) :
+    decode cfg (shortestHead 6 42 ++ ((shortestHead 2 (c.length + 1) ++ (0 :: c)) ++ rest)) = .error .badCid := by
+  apply decode_error_of_decItem 1
+    (by have := shortestHead_length_pos 6 42; have := shortestHead_length_pos 2 (c.length + 1)
+        simp only [List.length_append]; omega)
+  intro f hf
+  obtain ⟨f, rfl⟩ : ∃ g, f = g + 1 := ⟨f - 1, by omega⟩
+  rw [decItem_tag _ _ _ _ _ (by omega),
+    decItem_tagged_bytes _ _ _ _ _ (0 :: c) _ _ (c.length + 1) (by simp) hp (by push_cast; omega)]
+  simp [hl, hc]
+
+/-- A tag on null / undefined / a boolean is refused. -/
+theorem reject_tag_on_simple (cfg : DecCfg) (hb : 0 ≤ cfg.budget) (t : Nat) (ht : t < 2 ^ 63) (b : UInt8)
+    (rest : Bytes) (hs : b = 0xf4 ∨ b = 0xf5 ∨ b = 0xf6 ∨ b = 0xf7) :
+    decode cfg (shortestHead 6 t ++ b :: rest) = .error .badTag := by
+  apply decode_error_of_decItem 1
+    (by have := shortestHead_length_pos 6 t; simp only [List.length_append, List.length_cons]; omega)
+  intro f hf
+  obtain ⟨f, rfl⟩ : ∃ g, f = g + 1 := ⟨f - 1, by omega⟩
+  rw [decItem_tag _ _ _ _ _ ht]
+  rcases hs with rfl | rfl | rfl | rfl
+  · rw [decItem_false _ _ _ _ _ _ _ _ (by decide), finish_tag _ _ _ _ _ _ hb]
+  · rw [decItem_true _ _ _ _ _ _ _ _ (by decide), finish_tag _ _ _ _ _ _ hb]
+  · rw [decItem_null _ _ _ _ _ _ _ _ (by decide), finish_tag _ _ _ _ _ _ hb]
+  · rw [decItem_null _ _ _ _ _ _ _ _ (by decide), finish_tag _ _ _ _ _ _ hb]
+
+/-- A tag on an unsigned integer is refused. -/
+theorem reject_tag_on_uint (cfg : DecCfg) (hb : 0 ≤ cfg.budget) (t : Nat) (ht : t < 2 ^ 63) (n : Nat)
+    (hn : n < 2 ^ 64) (rest : Bytes) :
+    decode cfg (shortestHead 6 t ++ (shortestHead 0 n ++ rest)) = .error .badTag := by
+  apply decode_error_of_decItem 1
+    (by have := shortestHead_length_pos 6 t; have := shortestHead_length_pos 0 n
+        simp only [List.length_append]; omega)
+  intro f hf
+  obtain ⟨f, rfl⟩ : ∃ g, f = g + 1 := ⟨f - 1, by omega⟩
+  rw [decItem_tag _ _ _ _ _ ht, shortestHead_cons, decItem_m0 _ _ _ _ _ _ _ _ (head_byte_div 0 n (by omega)),
+    head_byte_mod 0 n (by omega), readArg_harg _ n hn]
+  simp only [bind, Except.bind]
+  rw [finish_tag _ _ _ _ _ _ hb]
+
+/-- A tag on a text string is refused. -/
+theorem reject_tag_on_string (cfg : DecCfg) (hb : 0 ≤ cfg.budget) (t : Nat) (ht : t < 2 ^ 63) (s rest : Bytes)
+    (hs : s.length ≤ 33554432) :
+    decode cfg (shortestHead 6 t ++ ((shortestHead 3 s.length ++ s) ++ rest)) = .error .badTag := by
+  have hi := hinfo_le s.length
+  apply decode_error_of_decItem 1
+    (by have := shortestHead_length_pos 6 t; have := shortestHead_length_pos 3 s.length
+        simp only [List.length_append]; omega)
+  intro f hf
+  obtain ⟨f, rfl⟩ : ∃ g, f = g + 1 := ⟨f - 1, by omega⟩
+  rw [decItem_tag _ _ _ _ _ ht, List.append_assoc, shortestHead_cons,
+    decItem_m3 _ _ _ _ _ _ _ _ (head_byte_div 3 _ (by omega)) (by rw [head_byte_mod 3 _ (by omega)]; omega),
+    head_byte_mod 3 _ (by omega), readLen_harg _ _ (by omega)]
+  simp only [bind, Except.bind]
+  have : ¬ (s.length > 33554432) := by omega
+  rw [if_neg this, take?_append]
+  simp only []
+  rw [finish_tag _ _ _ _ _ _ hb]
+
+/-- A tag on a list or a map is refused right after the head, whatever the contents. -/
+theorem reject_tag_on_container (cfg : DecCfg) (hb : 0 ≤ cfg.budget) (t : Nat) (ht : t < 2 ^ 63) (m n : Nat)
+    (hm : m = 4 ∨ m = 5) (hn : n < 2 ^ 63) (rest : Bytes) :
+    decode cfg (shortestHead 6 t ++ (shortestHead m n ++ rest)) = .error .badTag := by
+  have hi := hinfo_le n
+  apply decode_error_of_decItem 1
+    (by have := shortestHead_length_pos 6 t; have := shortestHead_length_pos m n
+        simp only [List.length_append]; omega)
+  intro f hf
+  obtain ⟨f, rfl⟩ : ∃ g, f = g + 1 := ⟨f - 1, by omega⟩
+  rw [decItem_tag _ _ _ _ _ ht, shortestHead_cons]
+  rcases hm with rfl | rfl
+  · rw [decItem_m4 _ _ _ _ _ _ _ _ (head_byte_div 4 _ (by omega)) (by rw [head_byte_mod 4 _ (by omega)]; omega),
+      head_byte_mod 4 _ (by omega), readLen_harg _ _ hn]
+    simp only [bind, Except.bind]
+    rw [charge_ok _ _ _ hb]
+  · rw [decItem_m5 _ _ _ _ _ _ _ _ (head_byte_div 5 _ (by omega)) (by rw [head_byte_mod 5 _ (by omega)]; omega),
+      head_byte_mod 5 _ (by omega), readLen_harg _ _ hn]
+    simp only [bind, Except.bind]
+    rw [charge_ok _ _ _ hb]
+
+/-- A tag on a tag is refused at the second tag's first byte. -/
+theorem reject_nested_tag (cfg : DecCfg) (t : Nat) (ht : t < 2 ^ 63) (b : UInt8) (hb : b.toNat / 32 = 6)
+    (rest : Bytes) : decode cfg (shortestHead 6 t ++ b :: rest) = .error .multiTag := by
+  apply decode_error_of_decItem 1
+    (by have := shortestHead_length_pos 6 t; simp only [List.length_append, List.length_cons]; omega)
+  intro f hf
+  obtain ⟨f, rfl⟩ : ∃ g, f = g + 1 := ⟨f - 1, by omega⟩
+  rw [decItem_tag _ _ _ _ _ ht, decItem_m6 _ _ _ _ _ _ _ _ hb]
+
+/-! ### Trailing bytes -/
+
+/-- Any complete item followed by one more byte is refused as a whole input (`trailing`), for every
+    value and every encoding of it — in particular after every scalar. -/
+theorem reject_trailing (cfg : DecCfg) (v : DM) (bs : Bytes) (b : UInt8) (rest : Bytes)
+    (hB : cfg.budget < 2 ^ 63) (hd : Denotes v bs) (hl : WithinLimits cfg v)
+    (hp : cfg.dontParseBeyondEnd = false) : decode cfg (bs ++ b :: rest) = .error .trailing :=
+  decode_trailing_aux cfg v bs b rest hd hl hB hp
+
+/-- With `dontParseBeyondEnd` set the tail is ignored instead. -/
+theorem accept_prefix (cfg : DecCfg) (v : DM) (bs rest : Bytes)
+    (hB : cfg.budget < 2 ^ 63) (hd : Denotes v bs) (hl : WithinLimits cfg v)
+    (hp : cfg.dontParseBeyondEnd = true) : decode cfg (bs ++ rest) = .ok v :=
+  decode_prefix_aux cfg v bs rest hd hl hB hp
+
+example (b : UInt8) (rest : Bytes) : decode dagcborDec (0x01 :: b :: rest) = .error .trailing :=
+  reject_trailing _ (.int 1) [0x01] b rest (by decide) (by simp [Denotes, shortestHead])
+    (by simp [WithinLimits, DM.depth, cost, maxStr, hasLink, dagcborDec]) rfl
+
+/-! ### Integers below −2^63 -/
+
+/-- A negative integer whose argument is 2^63 or more is refused, strict or relaxed; with the K1
+    wrap-around in place the one argument 2^64−1 escapes (see `negWrap_accepts_minus_2_64`). -/
+theorem reject_neg_overflow (cfg : DecCfg) (n : Nat) (h1 : 2 ^ 63 ≤ n) (h2 : n < 2 ^ 64)
+    (hw : cfg.negWrap = false ∨ n < 2 ^ 64 - 1) (rest : Bytes) :
+    decode cfg (shortestHead 1 n ++ rest) = .error .negOverflow := by
+  apply decode_error_of_decItem 0 (by omega)
+  intro f _
+  rw [shortestHead_cons, decItem_m1 _ _ _ _ _ _ _ _ (head_byte_div 1 n (by omega)),
+    head_byte_mod 1 n (by omega), readArg_harg _ n h2]
+  simp only [bind, Except.bind]
+  have : (if cfg.negWrap then (n + 1) % 18446744073709551616 else n + 1) > 9223372036854775808 := by
+    rcases hw with hw | hw
+    · simp only [hw, Bool.false_eq_true, if_false]; omega
+    · split
+      · rw [Nat.mod_eq_of_lt (by omega)]; omega
+      · omega
+  rw [if_pos this]
+
+/-- K1 itself: with the wrap-around, −2^64 is read as 0. -/
+theorem negWrap_accepts_minus_2_64 (cfg : DecCfg) (hw : cfg.negWrap = true) (hb : 1 ≤ cfg.budget) :
+    decode cfg [0x3b, 0xff, 0xff, 0xff, 0xff, 0xff, 0xff, 0xff, 0xff] = .ok (.int 0) := by
+  have hr : readArg (!cfg.relaxed) 27 [0xff, 0xff, 0xff, 0xff, 0xff, 0xff, 0xff, 0xff]
+      = .ok (18446744073709551615, []) := by
+    cases cfg.relaxed <;> simp [readArg, take?, beVal, bind, Except.bind]
+  unfold decode
+  rw [decItem_m1 _ _ _ _ _ _ _ _ (by decide)]
+  have e : (0x3b : UInt8).toNat % 32 = 27 := by decide
+  rw [e, hr]
+  simp only [bind, Except.bind, hw, if_true]
+  rw [if_neg (by decide), finish_ok _ _ _ _ _ (by omega) (by omega) (by omega)]
+  simp only [List.isEmpty_nil, if_true]
+  split <;> rfl
+
+/-! ### Map keys -/
+
+/-- A map key that is not a text string is refused (`b` is the first byte of the would-be key: any
+    major type but 3; the indefinite-length markers are refused earlier, as `indefinite`). -/
+theorem reject_bad_key (cfg : DecCfg) (n : Nat) (h1 : 1 ≤ n) (hn : n < 2 ^ 63) (hb : (n : Int) ≤ cfg.budget)
+    (hd : 0 < cfg.maxDepth) (b : UInt8) (rest : Bytes) (hb3 : b.toNat / 32 ≠ 3)
+    (hind : ¬ (b.toNat = 0x5f ∨ b.toNat = 0x9f ∨ b.toNat = 0xbf)) :
+    decode cfg (shortestHead 5 n ++ b :: rest) = .error .badKey := by
+  apply decode_error_of_decItem 0 (by omega)
+  intro f _
+  exact decItem_bad_key cfg f n h1 hn _ hb hd b rest hb3 hind
+
+/-- A two-entry map carrying the same key `k` twice is refused, for every key (here up to the 32 MiB
+    cap, not just short ones), strict or relaxed; the first value is null. -/
+theorem reject_dup_key (cfg : DecCfg) (k rest : Bytes) (hk : k.length ≤ 33554432)
+    (hb : 2 * (k.length : Int) + 18 ≤ cfg.budget) (hd : 0 < cfg.maxDepth) :
+    decode cfg (0xa2 :: ((shortestHead 3 k.length ++ k) ++ (0xf6 :: ((shortestHead 3 k.length ++ k) ++ rest))))
+      = .error .dupKey := by
+  apply decode_error_of_decItem 1 (by simp only [List.length_cons]; omega)
+  intro f hf
+  obtain ⟨f, rfl⟩ : ∃ g, f = g + 1 := ⟨f - 1, by omega⟩
+  exact decItem_dup_key cfg f k rest hk _ hb hd
+
+example (rest : Bytes) :
+    decode dagcborDec (0xa2 :: 0x61 :: 0x61 :: 0xf6 :: 0x61 :: 0x61 :: rest) = .error .dupKey :=
+  reject_dup_key dagcborDec [0x61] rest (by decide) (by decide) (by decide)
+
+example (rest : Bytes) : decode dagcborDec (0xa1 :: 0x01 :: rest) = .error .badKey :=
+  reject_bad_key dagcborDec 1 (by decide) (by decide) (by decide) (by decide) 0x01 rest (by decide) (by decide)
+
+end Ipld.Props.C03
+
+namespace Ipld.Props.C03
+open Ipld Ipld.Cbor Ipld.Generated
+
+/-- (T) The constants regenerated from `codec/dagcbor/unmarshal.go` on this run are the ones the decoder
+    model charges and defaults to: 8 per map entry (`decMap`), 4 per list entry (`decItem … 4` in `decList`),
+    and the default budget / pre-allocation cap / depth of `dagcborDec`. -/
+theorem consts_src_are_model :
+    mapEntryCost_src = 8 ∧ listEntryCost_src = 4 ∧
+    defaultAllocationBudget_src = dagcborDec.budget ∧
+    defaultMaxCollectionPrealloc_src = (dagcborDec.maxPrealloc : Int) ∧
+    defaultMaxDepth_src = (dagcborDec.maxDepth : Int) := by decide
+
+/-- (T) The tokenizer strictness wiring regenerated from `refmtDecodeOptions` is the one the model assumes:
+    indefinite lengths are refused and `undefined` reads as null in every mode; non-minimal heads, NaN and
+    ±Inf are refused exactly when `RelaxedDecode` is off; the registered codec allows links and nothing else. -/
+theorem strictness_wiring_src :
+    refmtFlagsAlways_src = ["CoerceUndefToNull", "RejectIndefinite"] ∧
+    refmtFlagsStrictOnly_src = ["RejectInfinity", "RejectNaN", "RejectNonMinimalInteger"] ∧
+    registeredDecodeOptions_src = ["AllowLinks=true"] := by decide
 
 end Ipld.Props.C03
